@@ -284,6 +284,9 @@ class Network:
         """
         with self.graph_lock:
             peer = self.reverse_ip_lookup.pop(address, None)
+            if peer and (self.verified_by_public_key_bin.get(peer.public_key.key_to_bin()) is not peer
+                         or address not in peer.addresses.values()):
+                peer = None  # Stale cache entry: the peer was removed or no longer uses this address.
             if not peer:
                 for p in self.verified_peers:
                     if address in p.addresses.values():
